@@ -317,6 +317,40 @@ def run_twin(ctx) -> RuleResult:
                         "R-TWIN", module, qual, c1,
                         f"the polynomial branch calls {n1}({', '.join(a1)}) but the numeric branch "
                         f"{n2}({', '.join(a2)}): the two branches disagree on operand order"))
+        # expression form:  numpoly.f(a, b) if c else numpy.f(a, b)   /   (numpoly.f if c else numpy.f)(a, b)
+        for node in ast.walk(func):
+            cands = []
+            if isinstance(node, ast.IfExp):
+                cands.append((node.body, node.orelse))
+            if isinstance(node, ast.If) and node.orelse:
+                for b1 in node.body:
+                    for b2 in node.orelse:
+                        if isinstance(b1, ast.Assign) and isinstance(b2, ast.Assign) and U(b1.targets[0]) == U(b2.targets[0]) \
+                                and not isinstance(b1.value, ast.Call) and not isinstance(b2.value, ast.Call):
+                            cands.append((b1.value, b2.value))
+            for e1, e2 in cands:
+                calls = isinstance(e1, ast.Call) and isinstance(e2, ast.Call)
+                f1, f2 = (e1.func, e2.func) if calls else (e1, e2)
+                if not isinstance(f1, (ast.Attribute, ast.Name)) or not isinstance(f2, (ast.Attribute, ast.Name)):
+                    continue
+                n1, n2 = ctx.dotted(module, f1), ctx.dotted(module, f2)
+                if not n1 or not n2:
+                    continue
+                if {n1.split(".")[0], n2.split(".")[0]} != {"numpy", "numpoly"} or n1.split(".")[-1] != n2.split(".")[-1]:
+                    continue
+                n += 1
+                if calls:
+                    a1, a2 = [U(a) for a in e1.args], [U(a) for a in e2.args]
+                    ok = a1 == a2
+                    result.ob(f"{qual}: {n1} / {n2} receive the same operands", ok, module.loc(node), f"{a1} vs {a2}")
+                    if not ok:
+                        result.add(Finding(
+                            "R-TWIN", module, qual, e1,
+                            f"the polynomial branch calls {n1}({', '.join(a1)}) but the numeric branch "
+                            f"{n2}({', '.join(a2)}): the two branches disagree on operand order"))
+                else:
+                    result.ob(f"{qual}: {n1} / {n2} are selected as callables and applied to one argument list", True,
+                              module.loc(node), "")
     result.info["twin_sites"] = n
     if n == 0:
         raise AnalysisError("R-TWIN: no numpy/numpoly twin branch found (confirmed 1 in call())")
